@@ -119,6 +119,34 @@ def strip_inserted(design, names):
     return d
 
 
+def wildcard_zero_pair(rng):
+    """(program without the region, program with a `?` region that resolves to 0 nt) where the strand / super-sequence that holds the
+    region is described by a DOMAIN-level structure (one symbol per item, also for the zero-length region)"""
+    import srcparse
+    ld, lt = rng.randint(2, 6), rng.randint(2, 5)
+    code = rng.choice(["N", "S", "W"])
+    where = rng.choice(["strand-first", "strand-middle", "strand-last", "super"])
+    head = 'declare component gate: -> \nsequence data = "%dN"\nsequence toe = "%dN"\nstrand X = toe data\n' % (ld, lt)
+    items = ["data*", "toe*"]
+    syms = [")", ")"]
+    k = {"strand-first": 0, "strand-middle": 1, "strand-last": 2, "super": rng.randint(0, 2)}[where]
+    it2, sy2 = items[:k] + ['"?%s"' % code] + items[k:], syms[:k] + ["."] + syms[k:]
+    def prog(its, sys_):
+        if where == "super":
+            body = "sequence cs = %s : %d\nstrand C = domains(cs)\n" % (" ".join(its), ld + lt)
+        else:
+            body = "strand C = %s : %d\n" % (" ".join(its), ld + lt)
+        return head + body + "structure [%s] Gate = X + C : domain ((+%s\n" % (opt, "".join(sys_))
+    opt = rng.choice(["1nt", "no-opt", "2nt"])
+    out = []
+    for its, sys_ in ((items, syms), (it2, sy2)):
+        with core.scratch("pepper_c14w_") as d:
+            with open(d + "/top.comp", "w") as f:
+                f.write(prog(its, sys_))
+            out.append(srcparse.bundle_from_dir(d, "top", []))
+    return out[0], out[1], where
+
+
 def run(st, tier, seed):
     res = Result("C14")
     res.rule = ("every generated program (components; systems with one transformed template) x 1 insertion drawn from "
@@ -136,12 +164,18 @@ def run(st, tier, seed):
             b = progen.gen_system_bundle(rng, depth=rng.randint(1, 2), size=4, n_templates=2, satisfiable=True, allow_domain=False)
         if b is None:
             continue
-        rel = rng.choice(sorted(b.asts))
-        tr = insert_zero(b.asts[rel], rng)
-        if tr is None:
-            continue
-        ast2, inserted, place = tr
-        b2 = progen.set_component(b, rel, ast2, rng)
+        if i % 15 == 4:
+            # directed: a `?` region that resolves to 0 nt under a domain-level structure
+            b, b2, where = wildcard_zero_pair(rng)
+            inserted, place = [], "beside-wildcard"
+            res.count("directed:zero-length-wildcard-region-under-domain-structure:" + where)
+        else:
+            rel = rng.choice(sorted(b.asts))
+            tr = insert_zero(b.asts[rel], rng)
+            if tr is None:
+                continue
+            ast2, inserted, place = tr
+            b2 = progen.set_component(b, rel, ast2, rng)
         res.evaluations += 1
         res.count("placement:" + place)
         inp = {"files": b.texts, "files_with_zero_length_objects": b2.texts, "inserted": inserted, "placement": place,
